@@ -324,7 +324,14 @@ def reply_rule(ctx, b, fl, op_bb, name, field, val, key):
                   'the reply %s{%s:%s} is sent although the %s it reports may have failed (its result is discarded)' % (
                       name, field, str(bool(val)).lower(), callee(b.blocks[op_bb]['term']).split('::')[-1]), loc(b, line))
     if not found:
-        ctx.undecided('C03.R5', '%s: no %s{%s:%s} reply was found behind the operation (the reply is built in a way the rule does not follow)' % (key, name, field, bool(val)))
+        # a reply of that kind with the OTHER value behind the operation is a positive finding: this outcome is reported as
+        # the opposite one
+        wrong = [x for x in reply_sites(b, fl, name, field, 1 - val) if cfg.can_reach(op_bb, x[0])]
+        if wrong:
+            ctx.bad('C03.R5', key + ':reply-exists', 'behind this operation the reply is %s{%s:%s}, not %s{%s:%s}: the outcome is reported as its opposite' % (
+                name, field, str(bool(1 - val)).lower(), name, field, str(bool(val)).lower()), loc(b, wrong[0][1]))
+        else:
+            ctx.undecided('C03.R5', '%s: no %s{%s:%s} reply was found behind the operation (the reply is built in a way the rule does not follow)' % (key, name, field, bool(val)))
 
 
 def r4(ctx, F):
